@@ -1,6 +1,8 @@
 package main
 
 import (
+	"fmt"
+	"go/token"
 	"go/types"
 	"sort"
 	"strings"
@@ -35,7 +37,7 @@ var fileMutating = map[string]string{
 	"(*os.File).Truncate": "handle", "(*os.File).Chmod": "handle", "(*os.File).Chown": "handle", "(*os.File).Sync": "handle",
 	"io/ioutil.WriteFile": "", "io/ioutil.TempFile": "", "io/ioutil.TempDir": "",
 	"github.com/joho/godotenv.Write": "",
-	"(*os.Root).Create": "", "(*os.Root).Mkdir": "", "(*os.Root).Remove": "", "(*os.Root).OpenFile": "",
+	"(*os.Root).Create":              "", "(*os.Root).Mkdir": "", "(*os.Root).Remove": "", "(*os.Root).OpenFile": "",
 }
 
 // process-level stdout writers (besides uses of os.Stdout itself).
@@ -67,11 +69,11 @@ var externalClass = map[string]string{
 	"github.com/juju/ansiterm/tabwriter": "writer-arg", "github.com/FollowTheProcess/msg": "writer-arg", "bufio": "writer-arg",
 	"io/fs": "fs-read", "path/filepath": "fs-read", "path": "pure", "github.com/bmatcuk/doublestar/v4": "fs-read",
 	"github.com/joho/godotenv": "environment",
-	"go.uber.org/zap": "terminal-logger", "go.uber.org/zap/zapcore": "terminal-logger",
+	"go.uber.org/zap":          "terminal-logger", "go.uber.org/zap/zapcore": "terminal-logger",
 	"github.com/FollowTheProcess/cli": "cli-frontend",
-	"mvdan.cc/sh/v3/interp": "user-program",
-	"os": "per-function",
-	"internal/runtime/sys": "pure", "unsafe": "undecided",
+	"mvdan.cc/sh/v3/interp":           "user-program",
+	"os":                              "per-function",
+	"internal/runtime/sys":            "pure", "unsafe": "undecided",
 }
 
 // read-only / process-level functions of package os (anything else in os that is not file-mutating is undecided).
@@ -97,6 +99,28 @@ type mutSite struct {
 func pkgOfCallee(name string) string {
 	// "(*os.File).WriteString" -> os ; "path/filepath.Join" -> path/filepath ; "(github.com/x/y.T).M" -> github.com/x/y
 	s := name
+	// drop type arguments of generic instantiations
+	for {
+		i := strings.Index(s, "[")
+		if i < 0 {
+			break
+		}
+		depth, j := 0, i
+		for ; j < len(s); j++ {
+			if s[j] == '[' {
+				depth++
+			} else if s[j] == ']' {
+				depth--
+				if depth == 0 {
+					break
+				}
+			}
+		}
+		if j >= len(s) {
+			break
+		}
+		s = s[:i] + s[j+1:]
+	}
 	if strings.HasPrefix(s, "(") {
 		if i := strings.Index(s, ")"); i > 0 {
 			s = s[1:i]
@@ -225,4 +249,198 @@ func namedOf(t types.Type) *types.Named {
 func isNamed(t types.Type, pkgPath, name string) bool {
 	n := namedOf(t)
 	return n != nil && n.Obj().Name() == name && n.Obj().Pkg() != nil && n.Obj().Pkg().Path() == pkgPath
+}
+
+// ---- entry conditions (E1) -----------------------------------------------------------------------------------------------
+
+// atomOf normalises a guard to an atom: "opt:Clean=true", "hastask:clean=false", "exists=false", "notasks=true".
+func (c *Ctx) atomOf(g guard) string {
+	cond := g.cond
+	// Options.<bool field>
+	if u, ok := cond.(*ssa.UnOp); ok && u.Op == token.MUL {
+		if k := fieldKey(u.X); strings.HasPrefix(k, "cli/app.Options.") {
+			return fmt.Sprintf("opt:%s=%v", strings.TrimPrefix(k, "cli/app.Options."), g.pol)
+		}
+	}
+	if call, ok := cond.(*ssa.Call); ok {
+		callee := call.Common().StaticCallee()
+		if c.isTaskHitTest(callee) && len(call.Common().Args) == 2 {
+			if s, ok := constString(call.Common().Args[1]); ok {
+				return fmt.Sprintf("hastask:%s=%v", s, g.pol)
+			}
+		}
+		if c.isExistsTest(callee) {
+			return fmt.Sprintf("exists=%v", g.pol)
+		}
+	}
+	if b, ok := cond.(*ssa.BinOp); ok && (b.Op == token.EQL || b.Op == token.NEQ) {
+		if call, ok := b.X.(*ssa.Call); ok {
+			if bi, ok := call.Call.Value.(*ssa.Builtin); ok && bi.Name() == "len" {
+				if n, ok := constInt(b.Y); ok && n == 0 {
+					if p, ok := call.Call.Args[0].(*ssa.Parameter); ok && p.Name() == "tasks" {
+						return fmt.Sprintf("notasks=%v", (b.Op == token.EQL) == g.pol)
+					}
+				}
+			}
+		}
+	}
+	return ""
+}
+
+// isExistsTest: f is `_, err := os.Stat(p); return err == nil`.
+func (c *Ctx) isExistsTest(f *ssa.Function) bool {
+	if f == nil || !inModule(f) || f.Signature.Results().Len() != 1 || len(f.Params) != 1 {
+		return false
+	}
+	if b, ok := firstResult(f).Underlying().(*types.Basic); !ok || b.Kind() != types.Bool {
+		return false
+	}
+	if len(callsTo(f, "os.Stat")) != 1 {
+		return false
+	}
+	for _, ret := range returnsOf(f) {
+		x, nonNilWhenTrue, ok := errNilTest(ret.Results[0])
+		if !ok || nonNilWhenTrue || x == nil {
+			return false
+		}
+	}
+	return true
+}
+
+// entryConds computes, for every module function, the atoms that hold on every module call path to it:
+// EC(f) = ⋂ over call sites c of f (NG(c) ∪ EC(caller(c))), greatest fixpoint, EC = ∅ for functions without module callers.
+func (c *Ctx) entryConds() map[*ssa.Function]map[string]bool {
+	e := c.ensureEffects()
+	if e.entryConds != nil {
+		return e.entryConds
+	}
+	top := map[string]bool{"⊤": true}
+	ec := map[*ssa.Function]map[string]bool{}
+	sitesOf := map[*ssa.Function][]ssa.CallInstruction{}
+	ng := map[ssa.CallInstruction]map[string]bool{}
+	for _, f := range c.ModFuncs {
+		sites := c.callersOf(f)
+		// a closure is "called" where it is created when it is handed to external code
+		sitesOf[f] = sites
+		if len(sites) == 0 && f.Parent() == nil {
+			ec[f] = map[string]bool{}
+		} else {
+			ec[f] = top
+		}
+		for _, s := range sites {
+			if _, ok := ng[s]; ok {
+				continue
+			}
+			m := map[string]bool{}
+			fi := c.info(s.Parent())
+			for _, g := range fi.necessaryGuards(s.Block()) {
+				if a := c.atomOf(g); a != "" {
+					m[a] = true
+				}
+			}
+			ng[s] = m
+		}
+	}
+	// anonymous functions inherit the conditions of the place that creates them
+	changed := true
+	for iter := 0; changed && iter < 50; iter++ {
+		changed = false
+		for _, f := range c.ModFuncs {
+			var cur map[string]bool
+			first := true
+			meet := func(m map[string]bool) {
+				if m["⊤"] {
+					return
+				}
+				if first {
+					cur = map[string]bool{}
+					for k := range m {
+						cur[k] = true
+					}
+					first = false
+					return
+				}
+				for k := range cur {
+					if !m[k] {
+						delete(cur, k)
+					}
+				}
+			}
+			if f.Parent() != nil {
+				// creation sites
+				for _, b := range f.Parent().Blocks {
+					for _, in := range b.Instrs {
+						mc, ok := in.(*ssa.MakeClosure)
+						if !ok || mc.Fn != ssa.Value(f) {
+							continue
+						}
+						u := map[string]bool{}
+						for _, g := range c.info(f.Parent()).necessaryGuards(b) {
+							if a := c.atomOf(g); a != "" {
+								u[a] = true
+							}
+						}
+						if pe := ec[f.Parent()]; !pe["⊤"] {
+							for k := range pe {
+								u[k] = true
+							}
+							meet(u)
+						}
+					}
+				}
+			}
+			for _, s := range sitesOf[f] {
+				pe := ec[s.Parent()]
+				if pe["⊤"] {
+					continue
+				}
+				u := map[string]bool{}
+				for k := range ng[s] {
+					u[k] = true
+				}
+				for k := range pe {
+					u[k] = true
+				}
+				meet(u)
+			}
+			if first {
+				continue // no information yet (or a root)
+			}
+			old := ec[f]
+			if old["⊤"] || len(old) != len(cur) {
+				ec[f] = cur
+				changed = true
+			}
+		}
+	}
+	for f, m := range ec {
+		if m["⊤"] {
+			ec[f] = map[string]bool{}
+		}
+	}
+	e.entryConds = ec
+	return ec
+}
+
+// condsAt: entry conditions of the function plus the necessary guards of the instruction, as atoms.
+func (c *Ctx) condsAt(in ssa.Instruction) map[string]bool {
+	out := map[string]bool{}
+	for k := range c.entryConds()[in.Parent()] {
+		out[k] = true
+	}
+	for _, g := range c.info(in.Parent()).necessaryGuards(in.Block()) {
+		if a := c.atomOf(g); a != "" {
+			out[a] = true
+		}
+	}
+	return out
+}
+
+func atomList(m map[string]bool) string {
+	var ks []string
+	for k := range m {
+		ks = append(ks, k)
+	}
+	sort.Strings(ks)
+	return "{" + strings.Join(ks, ", ") + "}"
 }
